@@ -58,6 +58,18 @@ def run(v):
                     "c07_mc_dev", workers=2, timeout=600, coverage=False)
     if rd.violated != "NeverLosesExceptKnown":
         raise common.ToolError("MC_DictFile: the append-only deviation is not refuted (vacuous invariant)")
+    # the file-dictionary naming map: every name fits, different documents get different names; the code
+    # before the repair (no shortening) and a seeded deviation (digest of the tail) must be refuted
+    rn = common.tlc(os.path.join(SPEC, "mc", "MC_FileDictName.tla"), os.path.join(SPEC, "mc", "MC_FileDictName_quick.cfg"),
+                    "c07_mc_name", workers=2, timeout=600, coverage=False)
+    if rn.violated:
+        v.failure({"kind": "model", "invariant": rn.violated}, {"tlc_output": rn.output[-3000:]})
+    v.add_mc("MC_FileDictName", rn, "paths of <= 8 segments against a scaled name limit: Fits, Distinct")
+    for dev, inv in (("dev_unshortened", "Fits"), ("dev_tail", "Distinct")):
+        rx = common.tlc(os.path.join(SPEC, "mc", "MC_FileDictName.tla"), os.path.join(SPEC, "mc", f"MC_FileDictName_{dev}.cfg"),
+                        "c07_mc_name_dev", workers=2, timeout=600, coverage=False)
+        if rx.violated != inv:
+            raise common.ToolError(f"MC_FileDictName: deviation {dev} is not refuted (vacuous invariant)")
     r2 = common.tlc(os.path.join(SPEC, "mc", "MC_JsLinter.tla"), os.path.join(SPEC, "mc", "MC_JsLinter_quick.cfg"),
                     "c07_mc_js", workers=8, timeout=1800, coverage=False)
     if r2.violated:
